@@ -122,6 +122,7 @@ C12Texts == {Single(RD("s_v20", "i1", "m_ok", "o_a")), Single(RD("s_v20", "i1", 
              Batch(<<RD("s_v20", "i1", "m_ok", Absent), RD("s_v20", Absent, "m_exc", Absent), RD("s_v20", "i2", "m_unk", "a_1")>>),
              Batch(<<RD("s_v20", "i1", "m_perr", Absent), RD("s_v20", "i0", "m_one", Absent)>>),
              Batch(<<RD("s_v20", "i1", "m_ok", Absent)>>),                       \* a batch of one element
+             Batch(<<RD("s_v20", Absent, "m_ok", Absent), RD("s_v20", Absent, "m_perr", Absent)>>),   \* nothing but notifications
              Single(RD("s_v10", "i1", "m_ok", Absent)), Batch(<<>>), NotJson("garbage")}
 C12TextsSmall == {Single(RD("s_v20", "i1", "m_ok", "o_a")), Single(RD("s_v20", "i1", "m_unk", Absent)),
                   Batch(<<RD("s_v20", "i1", "m_ok", Absent), RD("s_v20", Absent, "m_exc", Absent)>>)}
